@@ -29,6 +29,15 @@ DEGENERATE = {
     "long-alt": G % "la" + "start = " + " | ".join('"k%d"' % i for i in range(300)) + ";\n",
     "binary": bytes(range(256)).decode("latin-1"),
 }
+# a string literal spelled like another symbol of the same specification (a token name, a rule name, a keyword, a predefined
+# name, a directive), used before and after that symbol's declaration, in a rule and in a directive
+COLLISIONS = {}
+for _i, _decl in enumerate(['IF = "if";', 'IF = /if/;', 'IF = $ID;', 'IF = "IF";']):
+    for _j, _use in enumerate(['start = "IF" ID;', 'start = ID "IF";', 'start = IF "IF" ID;', 'start = ID;\n@left "IF";', 'start = IF ID;\n@right "IF" IF;']):
+        for _k, _lines in enumerate(([_use, _decl, 'ID = /[a-z]+/;'], [_decl, 'ID = /[a-z]+/;', _use], ['ID = /[a-z]+/;', _use, _decl])):
+            COLLISIONS["collide-%d-%d-%d" % (_i, _j, _k)] = "grammar t;\n" + "\n".join(_lines) + "\n"
+for _i, _w in enumerate(["start", "grammar", "$ID", "@left", "t", "x", "ID"]):
+    COLLISIONS["collide-word-%d" % _i] = 'grammar t;\nstart = x "%s" ID;\nx = "%s" | ;\nID = /[a-z]+/;\n@left "%s";\n' % (_w, _w, _w)
 PATTERN_ALPHABET = '^$()[]{}|.?*+\\-,:ab01xAFpsd'
 # hexadecimal escapes of every documented width (2 and 4..8 digits) at the interesting values, alone and as items, bounds and
 # negated items of a bracket group
@@ -121,7 +130,7 @@ def run(ck):
     mutated = names if not quick else [n for n in ("kw", "eolcomment", "quotes", "number", "nested", "ops", "mixedws", "undef3", "lalr-conflicts", "dup-handles") if n in names]
     for n in names:
         items.append({"id": n, "kind": "spec" if n in mutated else "rawspec", "text": specs[n]})
-    for n, t in DEGENERATE.items():
+    for n, t in list(DEGENERATE.items()) + list(COLLISIONS.items()):
         items.append({"id": n, "kind": "rawspec", "text": t})
     # every ill-formed and well-formed specification of C07's generator (declaration kinds in every order, each defect
     # one at a time and in pairs): the entry points must survive all of them, whatever they answer
